@@ -2,6 +2,7 @@ package main
 
 import (
 	_ "embed"
+	"go/token"
 	"sort"
 	"strings"
 
@@ -255,4 +256,146 @@ func sortedCopy(a []string) []string {
 	b := append([]string{}, a...)
 	sort.Strings(b)
 	return b
+}
+
+// bodyOf: the member of root's family that contains the calls to anchor - root itself on the reference tree, a closure
+// or a helper when the body around them was moved out. root when there are none or they are spread over members.
+func (c *Ctx) bodyOf(root *ssa.Function, anchor string) *ssa.Function {
+	var body *ssa.Function
+	for _, ci := range c.findCallsFam(root, anchor) {
+		if body == nil {
+			body = ci.Parent()
+		} else if body != ci.Parent() {
+			return root
+		}
+	}
+	if body == nil {
+		return root
+	}
+	return body
+}
+
+// everyPassFam: every completed iteration of the loop around site passes through site's block; when the loop body was
+// moved into a closure or helper (no loop around site in its own function), every return of that function that can
+// report success passes through it instead.
+func (c *Ctx) everyPassFam(site ssa.Instruction) (bool, string) {
+	f := site.Parent()
+	if l := innermostLoop(f, site.Block()); l != nil {
+		if everyIterationPasses(l, site.Block()) {
+			return true, ""
+		}
+		return false, "an iteration can complete without it"
+	}
+	if !isNewHelper(f) && f.Parent() == nil {
+		return false, "not inside a loop"
+	}
+	for b := range reachAvoiding(f.Blocks[0], map[*ssa.BasicBlock]bool{site.Block(): true}) {
+		if len(b.Instrs) == 0 {
+			continue
+		}
+		if rt, ok := b.Instrs[len(b.Instrs)-1].(*ssa.Return); ok && c.mayReportSuccess(rt) {
+			return false, "the body can return success without it (" + c.ipos(rt) + ")"
+		}
+	}
+	return true, ""
+}
+
+// rootParamOf: v is (a copy of) one parameter of root on every way it can arrive - directly, through the slot a closure
+// captures, or through the parameters of helpers split off from root. nil otherwise.
+func (c *Ctx) rootParamOf(v ssa.Value, root *ssa.Function, depth int) *ssa.Parameter {
+	if depth > 5 {
+		return nil
+	}
+	v = unwrapConv(unwrap(unwrapConv(v)))
+	if p := spilledParam(v); p != nil {
+		v = p
+	}
+	switch x := v.(type) {
+	case *ssa.Parameter:
+		f := x.Parent()
+		if f == root {
+			return x
+		}
+		if !isNewHelper(f) || f.Parent() != nil {
+			return nil
+		}
+		idx := -1
+		for i, p := range f.Params {
+			if p == x {
+				idx = i
+			}
+		}
+		var res *ssa.Parameter
+		for _, cs := range c.familyCallSites(f) {
+			if idx >= len(cs.Common().Args) {
+				return nil
+			}
+			p := c.rootParamOf(cs.Common().Args[idx], root, depth+1)
+			if p == nil || (res != nil && res != p) {
+				return nil
+			}
+			res = p
+		}
+		return res
+	case *ssa.UnOp:
+		if fv, ok := x.X.(*ssa.FreeVar); ok && x.Op == token.MUL {
+			if al, _ := closureBinding(fv); al != nil && al.Referrers() != nil {
+				var val ssa.Value
+				n := 0
+				for _, rf := range *al.Referrers() {
+					if st, ok := rf.(*ssa.Store); ok && st.Addr == ssa.Value(al) {
+						n++
+						val = st.Val
+					}
+				}
+				if n == 1 {
+					return c.rootParamOf(val, root, depth+1)
+				}
+			}
+		}
+	case *ssa.FreeVar:
+		// a captured value (not a slot)
+		fn := x.Parent()
+		for i, w := range fn.FreeVars {
+			if w != x || fn.Parent() == nil {
+				continue
+			}
+			var res *ssa.Parameter
+			allInstrs(fn.Parent(), func(ins ssa.Instruction) {
+				if mc, ok := ins.(*ssa.MakeClosure); ok && mc.Fn == ssa.Value(fn) && i < len(mc.Bindings) {
+					res = c.rootParamOf(mc.Bindings[i], root, depth+1)
+				}
+			})
+			return res
+		}
+	}
+	return nil
+}
+
+// famDominates: a executes before b on every path to b, where each may sit in root or in a stage split off from it.
+func (c *Ctx) famDominates(root *ssa.Function, a, b ssa.Instruction) bool {
+	if a.Parent() == b.Parent() {
+		return instrDominates(a, b)
+	}
+	la, lb := c.liftSite(a, root), c.liftSite(b, root)
+	if la == nil || lb == nil || la == lb {
+		return false
+	}
+	// a's stage must reach its end only through a (so that "the stage ran" implies "a ran")
+	if la != a {
+		if okk, _ := c.everyPassFam(a); !okk && a.Parent() != root {
+			pass := true
+			for blk := range reachAvoiding(a.Parent().Blocks[0], map[*ssa.BasicBlock]bool{a.Block(): true}) {
+				if len(blk.Instrs) > 0 {
+					if rt, ok := blk.Instrs[len(blk.Instrs)-1].(*ssa.Return); ok && c.mayReportSuccess(rt) {
+						pass = false
+					}
+				}
+			}
+			if !pass {
+				return false
+			}
+		}
+	}
+	return instrDominates(la, lb)
 }
